@@ -169,6 +169,7 @@ class Opts:
         self.wrapper_odds = 5         # 1 in (n+1) list elements gets a wrapper
         self.json_safe = False        # keep the dictionary image unambiguous (C04): see json_kinds()
         self.nesting = True           # inner classes / nested enums
+        self.required_none = False    # Optional fields without a default (C18)
         self.anon_container = False   # single wildcards may hold the anonymous container of several elements (C01)
         self.hostile_text = False     # strings over all of Unicode, incl. code points XML 1.0 cannot carry (C03)
         self.mixin_enums = False      # class E(str, Enum) / IntEnum style enumerations (C18 only)
@@ -635,6 +636,13 @@ def model_specs(draw, opts=None):
     root = b.new_class(0, want_text=False if draw(st.integers(0, 9)) else None)
     spec = {"ns": draw(st.sampled_from([None, None, "urn:m"])) if o.namespaces else None,
             "enums": b.enums, "classes": b.classes, "root": root, "json_safe": bool(o.json_safe)}
+    if o.required_none:
+        # Optional[...] fields without a default in kw_only classes: the constructor requires them, None is a legal value
+        for c in b.classes:
+            if c["kw_only"]:
+                for f in c["fields"]:
+                    if f["card"] == "opt" and "default" not in f and f["kind"] in ("Element", "Attribute") and draw(st.integers(0, 4)) == 0:
+                        f["no_default"] = True
     normalize_namespaces(spec)
     if o.nesting:
         nest(draw, spec)
@@ -899,7 +907,7 @@ def field_src(spec, c, f):
         return f"field(default_factory={factory}, {meta})"
     if "default" in f:
         return f"field(default={literal(f['default'])}, {meta})"
-    if f["card"] == "opt":
+    if f["card"] == "opt" and not f.get("no_default"):
         return f"field(default=None, {meta})"
     return f"field({meta})"
 
